@@ -146,6 +146,8 @@ func collectDeclDependencies(d Decl) []string {
 		}
 	case *AliasDecl:
 		collectTypeRefs(d.Type, add)
+	case *ConstAssertDecl:
+		collectExprDeps(d.Condition, nil, add)
 	}
 	return refs
 }
